@@ -3,7 +3,8 @@
   quantifiers as `List.range` loops), and a concrete 2 x 2 x 2 lattice with an atmosphere block
   (non-vacuity example of `Props.C18.rectgeo_spacings_lattice_partial`).
 -/
-import PyTough.Proofs.RectGeoComposeLattice
+import PyTough.Proofs.RectGeoComposeTop
+import PyTough.Proofs.FromGeoExample
 namespace Proofs.RectGeo
 open Py Model.FromGeo Model.RectGeo
 
@@ -96,6 +97,57 @@ def grid : TGrid :=
 theorem ok : latticeOk grid (10 ^ 20) 1 1 1 blk cx cy cz = true := by decide +kernel
 
 theorem lattice : Lattice grid (10 ^ 20) 1 1 1 blk cx cy cz := latticeOk_sound ok
+
+theorem layered : Layered grid (10 ^ 20) 1 1 1 blk pz where
+  cover := by
+    intro b hb hv
+    simp only [grid, List.mem_cons, List.not_mem_nil, or_false] at hb
+    rcases hb with rfl | rfl | rfl | rfl | rfl | rfl | rfl | rfl | rfl
+    · exact absurd hv (by decide +kernel)
+    · exact ⟨0, 0, 0, by omega, by omega, by omega, rfl⟩
+    · exact ⟨1, 0, 0, by omega, by omega, by omega, rfl⟩
+    · exact ⟨0, 1, 0, by omega, by omega, by omega, rfl⟩
+    · exact ⟨1, 1, 0, by omega, by omega, by omega, rfl⟩
+    · exact ⟨0, 0, 1, by omega, by omega, by omega, rfl⟩
+    · exact ⟨1, 0, 1, by omega, by omega, by omega, rfl⟩
+    · exact ⟨0, 1, 1, by omega, by omega, by omega, rfl⟩
+    · exact ⟨1, 1, 1, by omega, by omega, by omega, rfl⟩
+  cen := fun i j l _ _ _ => ⟨_, rfl, rfl⟩
+  dec := by
+    intro l l' h1 h2
+    have : l = 0 ∧ l' = 1 := by omega
+    obtain ⟨rfl, rfl⟩ := this
+    decide +kernel
+
+/-- the slice `i = 0` of the lattice as a grid of its own: 1 x 2 x 2 (two-dimensional) -/
+def grid2 : TGrid :=
+  ⟨[atm, blk 0 0 0, blk 0 1 0, blk 0 0 1, blk 0 1 1],
+   [ca 0 0, ca 0 1, cy 0 0 0, cz 0 0 0, cz 0 1 0, cy 0 0 1]⟩
+
+theorem ok2 : latticeOk grid2 (10 ^ 20) 0 1 1 blk cx cy cz = true := by decide +kernel
+
+theorem lattice2 : Lattice grid2 (10 ^ 20) 0 1 1 blk cx cy cz := latticeOk_sound ok2
+
+theorem layered2 : Layered grid2 (10 ^ 20) 0 1 1 blk pz where
+  cover := by
+    intro b hb hv
+    simp only [grid2, List.mem_cons, List.not_mem_nil, or_false] at hb
+    rcases hb with rfl | rfl | rfl | rfl | rfl
+    · exact absurd hv (by decide +kernel)
+    · exact ⟨0, 0, 0, by omega, by omega, by omega, rfl⟩
+    · exact ⟨0, 1, 0, by omega, by omega, by omega, rfl⟩
+    · exact ⟨0, 0, 1, by omega, by omega, by omega, rfl⟩
+    · exact ⟨0, 1, 1, by omega, by omega, by omega, rfl⟩
+  cen := fun i j l _ _ _ => ⟨_, rfl, rfl⟩
+  dec := by
+    intro l l' h1 h2
+    have : l = 0 ∧ l' = 1 := by omega
+    obtain ⟨rfl, rfl⟩ := this
+    decide +kernel
+
+/-- block map entry for the bottom block of column (0,0), keyed by the name the C04 example
+    geometry gives the bottom block of its column `a` -/
+def mp : BlockMap := [([' ', ' ', 'a', ' ', '2'], (blk 0 0 1).name)]
 
 end Ex2
 end Proofs.RectGeo
